@@ -1403,6 +1403,17 @@ def classify(spec, rec, info):
           if f[1] != 'dir'}
     for x in sorted(fm):
         rec.cls(f"fmt:{x}")
+    sims = [f for f in spec['files'] if f[1] == 'sim']
+    if sims and (t.get('load') or t.get('cache') or any(
+            e[0] == 'files' and e[1] in ('load', 'cache')
+            for e in spec['config'])):
+        inputs = {f[2] for f in spec['files'] if f[1] in ('survey', 'model')}
+        other = any(f[2] not in inputs for f in sims)
+        rec.cls('stored:other_variant' if other else 'stored:same_variant',
+                f"stored:{sims[0][3]}")
+        if t.get('clean'):
+            rec.cls(f"clean:{'other' if other else 'same'}_model:"
+                    f"{sims[0][3]}")
     if info.get('noise'):
         rec.cls(f"noise:{info['noise']}")
     if info.get('saved'):
@@ -1439,8 +1450,15 @@ def with_context(entries, ctx):
     return [c for c in ctx if (c[0], c[1]) not in have] + list(entries)
 
 
-def files_for(spec, state='computed', lay=False):
-    """Input files an invocation needs (checker's reading of the case)."""
+def files_for(spec, state='computed', lay=False, simvar=0):
+    """Input files an invocation needs (checker's reading of the case).
+
+    `simvar`: variant of the problem the stored simulation is built from;
+    the survey and model files always hold variant 0.  With simvar=1 the
+    stored simulation has another model and one receiver less than the
+    files, so that `--load` (survey and model files ignored) and `--clean`
+    (computed data removed, model replaced by the model file) each have a
+    result of their own."""
     ref = build_ref(dict(spec, files=[]), '/WD')
     f = ref['files']
 
@@ -1448,7 +1466,7 @@ def files_for(spec, state='computed', lay=False):
         return os.path.relpath(p, '/WD')
     out = [[rel(f['survey']), 'survey', 0], [rel(f['model']), 'model', 0]]
     if f['load']:
-        out.append([rel(f['load']), 'sim', 0, state, lay])
+        out.append([rel(f['load']), 'sim', int(simvar), state, lay])
     for k in ('output', 'save'):
         if f[k]:
             d = os.path.dirname(rel(f[k]))
@@ -1460,13 +1478,14 @@ def files_for(spec, state='computed', lay=False):
     return out
 
 
-def _spec(prob, config, function, term=None, dry=False, **kw):
+def _spec(prob, config, function, term=None, dry=False, simvar=0,
+          state='computed', **kw):
     s = {'problem': prob, 'config': config, 'function': function,
          'term': term or {}, 'dry': dry, 'exec': 'inproc', 'files': []}
     s.update(kw)
     s['term'].setdefault('cfgarg', True)
     if 'files' not in kw:
-        s['files'] = files_for(s)
+        s['files'] = files_for(s, state, False, simvar)
     return s
 
 
@@ -1566,10 +1585,15 @@ def single_spec(sec, key, text, deco, function):
     val = text.partition('=')[2].partition('#')[0] if deco == 'raw' else text
     if key == 'max_workers' and val.strip() != '1':
         dry = True
-    if sec in ('simulation', 'solver_opts', 'layered') or (
+    if sec in ('simulation', 'solver_opts', 'layered', 'gridding_opts') or (
             sec == 'files' and key == 'load'):
+        # the saved simulation is compared as well (for gridding_opts it is
+        # the only observable of a run that is too big to be executed)
         term['save'] = 'c18_saved.npz'
-    return _spec(prob, with_context([entry], ctx), function, term, dry)
+    # a stored simulation differs from what the survey / model files hold
+    simvar = 1 if sec == 'files' and key in ('load', 'cache') else 0
+    return _spec(prob, with_context([entry], ctx), function, term, dry,
+                 simvar=simvar)
 
 
 # command-line options alone: (term, dry, needs)
@@ -1588,6 +1612,14 @@ FLAG_SINGLES = [
     ({'cache': 'sim.h5'}, False), ({'cache': 'sim.npz'}, False),
     ({'load': 'sim.h5', 'clean': True}, False),
     ({'cache': 'sim.npz', 'clean': True}, False),
+    # 'stored': [variant, state] of the stored simulation (default: variant
+    # 1 = other model and one receiver less than the survey / model files,
+    # state 'computed' = holds the fields and data of its own model)
+    ({'load': 'sim.npz', 'clean': True, 'stored': [1, 'misfit']}, False),
+    ({'load': 'sim.h5', 'clean': True, 'stored': [1, 'plain']}, False),
+    ({'load': 'sim.h5', 'stored': [1, 'plain']}, False),
+    ({'cache': 'sim.h5', 'stored': [1, 'misfit']}, False),
+    ({'load': 'sim.h5', 'stored': [0, 'computed']}, False),
     ({'clean': True}, False),
     ({}, True),
     ({'verbosity': '-v'}, False), ({'verbosity': '-vv'}, False),
@@ -1622,7 +1654,9 @@ def flag_specs(quick):
                 prob = dict(prob, case=t.pop('case'))
                 if quick:
                     fn = 'gradient'
-            spec = _spec(prob, with_context([], ctx), fn, t, dry)
+            stored = t.pop('stored', None) or [1, 'computed']
+            spec = _spec(prob, with_context([], ctx), fn, t, dry,
+                         simvar=stored[0], state=stored[1])
             spec['flagcase'] = True
             out.append(spec)
     return out
@@ -1803,6 +1837,7 @@ def combo_spec(draw, exec_='inproc', mode=None, function=None):
         function = draw(sf(['forward', 'misfit', 'gradient']))
     dry = draw(sf([False]*8 + [True]))
     lay_file = mode == 'load' and draw(st.booleans())
+    simvar = 0
     prob = draw(problem_spec(layered=(mode == 'layered' or lay_file or
                                       mode == 'load')))
     if (function != 'forward' or mode == 'load') and \
@@ -1854,6 +1889,10 @@ def combo_spec(draw, exec_='inproc', mode=None, function=None):
         term['clean'] = draw(sf([False, False, True]))
         if lay_file or draw(st.integers(0, 4)) == 0:
             term['layered'] = True
+        # stored simulation of another variant than the survey / model files
+        simvar = draw(sf([1, 1, 1, 0]))
+        if simvar and len(prob['rec']) < 3:      # variant 1: last one dropped
+            prob['rec'] = prob['rec'] + [['RxEP-9', 'EP']]
     config += fcfg
     # ---- simulation section
     sim = []
@@ -1921,7 +1960,7 @@ def combo_spec(draw, exec_='inproc', mode=None, function=None):
     spec = {'problem': prob, 'config': config, 'function': function,
             'term': term, 'dry': dry, 'exec': exec_, 'cfgname': cfgname,
             'files': []}
-    spec['files'] = files_for(spec, state, lay_file)
+    spec['files'] = files_for(spec, state, lay_file, simvar)
     return spec
 
 
